@@ -149,6 +149,21 @@ func runKSCase(t *testing.T, c ksCase, keys ksKeys, master []byte) (coq string, 
 				}
 
 				out = append(out, fmt.Sprintf("(KAdd N %s %s 2 %s %s, %s)", coqAtom(o.Slot), coqKP(o.KP), coqAtom(o.Old), coqKP(o.OldK), obs))
+			case "addbad":
+				// an unusable public key: the call must fail and leave the storage byte-for-byte unchanged
+				before, _ := ks.MarshalBinary() //nolint:errcheck
+				err = ks.AddKeySlot(o.Slot, "-----BEGIN PGP PUBLIC KEY BLOCK-----\n\nnot a key\n-----END PGP PUBLIC KEY BLOCK-----", o.Old, str(keys.priv, o.OldK))
+				after, _ := ks.MarshalBinary() //nolint:errcheck
+
+				if err == nil {
+					problems = append(problems, "guard: AddKeySlot accepted an unusable public key")
+				} else if canonKS(before) != canonKS(after) {
+					problems = append(problems, fmt.Sprintf("failed-op-changed-state: AddKeySlot(%q) failed (%v) but the serialized storage changed", o.Slot, err))
+				}
+
+				flags["bad_public_key"] = true
+
+				continue
 			case "delete":
 				_, wasLive := sealed[o.Slot]
 				nLive := len(sealed)
@@ -247,7 +262,11 @@ func runKSCase(t *testing.T, c ksCase, keys ksKeys, master []byte) (coq string, 
 		case "blob-garbage":
 			if s := raw.KeySlots[c.Tamper.A]; s != nil {
 				b := append([]byte(nil), s.EncryptedKey...)
-				b[len(b)/2] ^= 0x20
+				if len(b) == 0 {
+					b = []byte{9}
+				} else {
+					b[len(b)/2] ^= 0x20
+				}
 				s.EncryptedKey = b
 				tam = fmt.Sprintf("TBlob %s [9; 9; 9]", coqAtom(c.Tamper.A))
 				changed = true
@@ -289,6 +308,10 @@ func runKSCase(t *testing.T, c ksCase, keys ksKeys, master []byte) (coq string, 
 				if ids[i] == c.Tamper.A {
 					a, b := raw.KeySlots[ids[i]], raw.KeySlots[ids[i+1]]
 					n := len(a.EncryptedKey)
+					if n == 0 {
+						continue
+					}
+
 					b.EncryptedKey = append([]byte{a.EncryptedKey[n-1]}, b.EncryptedKey...)
 					a.EncryptedKey = a.EncryptedKey[:n-1]
 					tam = fmt.Sprintf("TShift %s %s", coqAtom(ids[i]), coqAtom(ids[i+1]))
@@ -503,8 +526,12 @@ func genKSCase(r *rng) ksCase {
 			}
 
 			c.Ops = append(c.Ops, o)
-		case x < 18:
+		case x < 17:
 			c.Ops = append(c.Ops, ksOp{Op: "reload"})
+		case x < 18:
+			o := ksOp{Op: "addbad", Slot: anySlot()}
+			o.Old, o.OldK = liveSlot()
+			c.Ops = append(c.Ops, o)
 		default:
 			c.Ops = append(c.Ops, ksOp{Op: "init", Slot: anySlot(), KP: r.intn(4)})
 		}
@@ -630,4 +657,26 @@ func TestC20(t *testing.T) {
 	rep.CaseFiles = append(rep.CaseFiles, writeJSONL(t, dir, "C20_keystorage_cases.jsonl", jl))
 	rep.Assumptions = append(rep.Assumptions, "OpenPGP encryption/decryption and HMAC-SHA256 behave as their idealised specification (trusted libraries); protobuf (de)serialisation of the storage is C18's subject")
 	rep.write(t, dir)
+}
+
+// canonKS renders a serialized storage independently of map iteration order.
+func canonKS(data []byte) string {
+	var raw key_storage.Storage
+	if err := raw.UnmarshalVT(data); err != nil {
+		return "unparsable: " + err.Error()
+	}
+
+	ids := make([]string, 0, len(raw.KeySlots))
+	for id := range raw.KeySlots {
+		ids = append(ids, id)
+	}
+
+	sort.Strings(ids)
+
+	out := fmt.Sprintf("v=%d hmac=%x", raw.StorageVersion, raw.KeysHmacHash)
+	for _, id := range ids {
+		out += fmt.Sprintf(" %s:%d:%x", id, raw.KeySlots[id].Algorithm, raw.KeySlots[id].EncryptedKey)
+	}
+
+	return out
 }
